@@ -24,7 +24,9 @@ def cfg0 : Cfg :=
   ⟨Gen.Life.closePurges, Gen.Life.destroyClosesChildren, Gen.Life.spanExactFit, Gen.Life.mouseKeepsRoot, Gen.Life.lastPressInit,
    Gen.Life.dragForgottenOnClose, Gen.Life.snapshotRouting, Gen.Life.penCopyKeepsSrc⟩
 
-def cfg : TCfg := { base := cfg0, rootForgetsTickit := Gen.Life.rootForgetsTickit }
+def cfg : TCfg :=
+  { base := cfg0, rootForgetsTickit := Gen.Life.rootForgetsTickit, sigwinchClearsNext := Gen.Life.sigwinchClearsNext,
+    setInputFdClearsTermkey := Gen.Life.setInputFdClearsTermkey }
 
 structure DSt where
   top : Top := {}
@@ -165,6 +167,14 @@ def parseXOp (ts : List String) : Option XOp :=
   | "itimer" :: ms :: acts => do some (.itimer (← int? ms) (← acts.mapM parseTAct))
   | ["icancel", k] => do some (.icancel (← nat? k))
   | "itick" :: toks => do some (.itick (← toks.mapM parseTok))
+  | ["mresize", l, c] => do some (.mresize (← int? l) (← int? c))
+  | ["xnew"] => some .xnew
+  | ["xref", k] => do some (.xref (← nat? k))
+  | ["xunref", k] => do some (.xunref (← nat? k))
+  | ["xobs", k, b] => do some (.xobs (← nat? k) ((← int? b) ≠ 0))
+  | ["tobs", b] => do some (.tobs ((← int? b) ≠ 0))
+  | ["winch"] => some .winch
+  | ["tsetin"] => some .tsetin
   | _ => (parseOp ts).map .base
 
 /-- The liveness columns of an implementation observation: (windows alive?, pens, strings, buffers, term). -/
@@ -175,25 +185,26 @@ structure ImplDump where
   rbs : List Bool
   term : Bool
   inst : Bool := false
+  xterms : List Bool := []
 
 def parseBits (s : String) : List Bool := if s = "-" then [] else s.toList.map (· = '1')
 
 def parseDump (impl : String) : Option ImplDump :=
+  let field (x : String) : String := ((x.splitOn " ").filter (· ≠ "")).getD 1 "-"
+  let letter (x : String) : String := ((x.splitOn " ").filter (· ≠ "")).getD 0 ""
   match impl.splitOn " | " with
-  | [_, w, p, s, b, t] =>
+  | _ :: w :: p :: s :: b :: t :: more =>
+    if more.length > 2 then none else
     let wtoks := (w.splitOn " ").filter (fun x => x ≠ "" ∧ x ≠ "W")
     let wins := wtoks.map (fun x => !(x.endsWith ":x"))
-    let field (x : String) : String := ((x.splitOn " ").filter (· ≠ "")).getD 1 "-"
-    some ⟨wins, parseBits (field p), parseBits (field s), parseBits (field b), (field t).startsWith "1", false⟩
-  | [_, w, p, s, b, t, i] =>
-    let wtoks := (w.splitOn " ").filter (fun x => x ≠ "" ∧ x ≠ "W")
-    let wins := wtoks.map (fun x => !(x.endsWith ":x"))
-    let field (x : String) : String := ((x.splitOn " ").filter (· ≠ "")).getD 1 "-"
-    some ⟨wins, parseBits (field p), parseBits (field s), parseBits (field b), (field t).startsWith "1", (field i).startsWith "1"⟩
+    let i := (more.find? (fun x => letter x = "I")).map (fun x => (field x).startsWith "1")
+    let x := (more.find? (fun x => letter x = "X")).map (fun x => parseBits (field x))
+    if more.any (fun x => letter x ≠ "I" ∧ letter x ≠ "X") then none else
+    some ⟨wins, parseBits (field p), parseBits (field s), parseBits (field b), (field t).startsWith "1", i.getD false, x.getD []⟩
   | _ => none
 
 /-- Specification on one implementation observation, given the application's bookkeeping after the step. -/
-def specCheck (d : DSt) (stAfter : St) (instRefs : Nat) (op : Op) (impl : String) : String :=
+def specCheck (d : DSt) (stAfter : St) (instRefs : Nat) (xRefs : List Nat) (op : Op) (impl : String) : String :=
   if impl.startsWith "CRASH" then
     if d.implDead then ""
     else s!"the library died ({impl}) in a history of documented calls"
@@ -215,7 +226,7 @@ def specCheck (d : DSt) (stAfter : St) (instRefs : Nat) (op : Op) (impl : String
       else match op with
         | .«end» =>
           if (impl.splitOn "leak=1").length > 1 then "allocations remain after the last reference was dropped (LeakSanitizer)"
-          else if dump.wins.any id || dump.pens.any id || dump.strs.any id || dump.rbs.any id || dump.term || dump.inst then
+          else if dump.wins.any id || dump.pens.any id || dump.strs.any id || dump.rbs.any id || dump.term || dump.inst || dump.xterms.any id then
             "an object is still alive after the application dropped every reference"
           else ""
         | _ =>
@@ -229,6 +240,7 @@ def specCheck (d : DSt) (stAfter : St) (instRefs : Nat) (op : Op) (impl : String
           | some k => s!"buffer {k} was freed while the application holds a reference"
           | none =>
             if instRefs > 0 && !dump.inst then "the toplevel instance was freed while the application holds a reference"
+            else if (xRefs.zip dump.xterms).any (fun (r, a) => r > 0 && !a) then "a further terminal was freed while the application holds a reference"
             else if stAfter.term.appRefs > 0 && !dump.term then "the terminal was freed while the application holds a reference"
             else if dump.wins.head?.getD false && !dump.term then "the terminal was freed while the root window is alive"
             else ""
@@ -242,10 +254,13 @@ def instRefs (top : Top) : Nat :=
   | some i => if i.freed then 0 else i.appRefs
   | none => 0
 
+def xRefs (top : Top) : List Nat := top.xterms.toList.map (fun x => if x.freed then 0 else x.appRefs)
+
 def dumpTop (top : Top) : String :=
   dump top.st ++ (match top.inst with
     | some i => s!" | I {if i.freed then 0 else 1}"
-    | none => "")
+    | none => "") ++
+  (if top.xterms.isEmpty then "" else " | X " ++ String.join (top.xterms.toList.map (fun x => if x.freed then "0" else "1")))
 
 def step (d : DSt) (ts : List String) (impl : String) : DSt × String × String :=
   match parseXOp ts with
@@ -256,12 +271,17 @@ def step (d : DSt) (ts : List String) (impl : String) : DSt × String × String 
     let implDeadNow := impl.startsWith "CRASH"
     match d.crashed with
     | some c =>
-      let sv := specCheck d d.top.st (instRefs d.top) op impl
+      let sv := specCheck d d.top.st (instRefs d.top) (xRefs d.top) op impl
       ({ d with implDead := d.implDead || implDeadNow }, c, sv)
     | none =>
       let top0 := d.top
       match Life.xstep cfg top0 xop with
       | .ok (top, res) =>
+        match top.fail with
+        | some c =>
+          -- the process has died in the SIGWINCH machinery (freed observer, NULL link, endless walk)
+          ({ d with top := top0, crashed := some c, implDead := d.implDead || implDeadNow }, c, specCheck d top0.st (instRefs top0) (xRefs top0) op impl)
+        | none =>
         let st := top.st
         let logs := String.join (st.log.map (· ++ " "))
         let st := { st with log := [] }
@@ -270,18 +290,18 @@ def step (d : DSt) (ts : List String) (impl : String) : DSt × String × String 
           | some i => !i.freed
           | none => false
         let tail := match op with
-          | .«end» => s!" leak={if anythingLeft st || instLeft then 1 else 0}"
+          | .«end» => s!" leak={if anythingLeft st || instLeft || top.xterms.any (fun x => !x.freed) then 1 else 0}"
           | _ => ""
         let m := logs ++ res ++ dumpTop top ++ tail
-        let sv := specCheck d st (instRefs top) op impl
+        let sv := specCheck d st (instRefs top) (xRefs top) op impl
         ({ d with top := top, implDead := d.implDead || implDeadNow }, m, sv)
       | .ub k what =>
         let c := crashText k
-        let sv := specCheck d top0.st (instRefs top0) op impl
+        let sv := specCheck d top0.st (instRefs top0) (xRefs top0) op impl
         let _ := what
         ({ d with top := top0, crashed := some c, implDead := d.implDead || implDeadNow }, c, sv)
       | .fuel =>
-        ({ d with crashed := some "MODEL-OUT-OF-FUEL", implDead := d.implDead || implDeadNow }, "MODEL-OUT-OF-FUEL", specCheck d top0.st (instRefs top0) op impl)
+        ({ d with crashed := some "MODEL-OUT-OF-FUEL", implDead := d.implDead || implDeadNow }, "MODEL-OUT-OF-FUEL", specCheck d top0.st (instRefs top0) (xRefs top0) op impl)
 
 def engine : Engine := { σ := DSt, init := {}, step := step }
 
